@@ -50,3 +50,6 @@ extern "C" void c12_rotation_derivatives()
   }
   vf_reach("rotation_derivatives");
 }
+
+// least-squares covariance (third clause of C12): the entries of C07's harness are reused
+#include "C07.cpp"
